@@ -14,7 +14,7 @@ from autograd.misc.flatten import flatten
 warnings.simplefilter("ignore")
 
 RD = [onp.float16, onp.float32, onp.float64, onp.longdouble]
-CD = [onp.complex64, onp.complex128]
+CD = [onp.complex64, onp.complex128, onp.clongdouble]
 DT = {onp.dtype(d): i for i, d in enumerate(RD)}
 DT.update({onp.dtype(onp.complex64): 4, onp.dtype(onp.complex128): 5, onp.dtype(onp.clongdouble): 6})
 
@@ -27,9 +27,9 @@ def gen_struct(rng, depth, allow_complex=True):
         if k < 0.2:
             return ("pyscalar", cplx)
         if k < 0.35:
-            return ("npscalar", cplx, rng.randrange(2 if cplx else 4))
+            return ("npscalar", cplx, rng.randrange(3 if cplx else 4))
         shape = tuple(rng.choice([0, 1, 1, 2, 2, 3]) for _ in range(rng.randint(0, 3)))
-        return ("array", cplx, rng.randrange(2 if cplx else 4), shape)
+        return ("array", cplx, rng.randrange(3 if cplx else 4), shape)
     n = rng.randint(0, 3)
     if r < 0.7:
         return ("list", [gen_struct(rng, depth - 1, allow_complex) for _ in range(n)])
@@ -221,6 +221,46 @@ def main():
                              "cov": enc(cov), "inner": int(ip), "zeros": enc(zeros), "ones": enc(ones),
                              "size": size, "basis": [enc(bv) for bv in basis], "flat": flat,
                              "problems": probs})
+    # ---- extended precision at magnitudes only it can hold: entries m * 2^e in longdouble leaves.  The operations are
+    #      exact there (products m1*m2 * 2^(2e) are representable), so the axioms hold exactly; the case is handed to the
+    #      model in units of 2^e (the model is exact arithmetic, the axioms are homogeneous). ----
+    if onp.finfo(onp.longdouble).maxexp > 2048:
+        for i in range(max(4, cfg["n"] // 10)):
+            e = rng.choice([600, -600, 520, -530])
+            u = onp.longdouble(2) ** e
+            shape = tuple(rng.choice([1, 2, 3]) for _ in range(rng.randint(0, 2)))
+            n = int(onp.prod(shape)) if shape else 1
+            mk = lambda: (onp.array([rng.randint(-3, 3) for _ in range(n)], dtype=onp.longdouble).reshape(shape) * u)  # noqa: E731
+            wrapk = rng.choice(["array", "list", "dict"])
+            wrap = (lambda a_: a_) if wrapk == "array" else (lambda a_: [a_, a_[()] * 1]) if wrapk == "list" else (lambda a_: {3: a_})
+            x, y, z = wrap(mk()), wrap(mk()), wrap(mk())
+            a = rng.randint(-2, 3)
+            vs = vspace(x)
+            probs = []
+            unit = lambda v: vs.scalar_mul(v, 1 / u)  # noqa: E731
+            try:
+                add, smul, cov, ip = vs.add(x, y), vs.scalar_mul(x, float(a)), vs.covector(x), vs.inner_prod(x, y)
+                zeros, ones, size, basis = vs.zeros(), vs.ones(), int(vs.size), list(vs.standard_basis())
+                xx = vs.inner_prod(x, x)
+
+                def A(name, cond):
+                    if not cond:
+                        probs.append(name + " (longdouble entries m*2^%d)" % e)
+                A("inner symmetric", ip == vs.inner_prod(y, x))
+                A("inner additive", vs.inner_prod(add, z) == vs.inner_prod(x, z) + vs.inner_prod(y, z))
+                A("inner homogeneous", vs.inner_prod(smul, y) == a * ip)
+                A("inner finite", bool(onp.isfinite(xx)) and bool(onp.isfinite(ip)))
+                A("inner positive definite", xx >= 0 and ((xx == 0) == deq(x, zeros)))
+                A("inner product exact", ip / u / u == vs.inner_prod(unit(x), unit(y)) and xx / u / u == vs.inner_prod(unit(x), unit(x)))
+                A("inner against basis reads the coordinate", all(
+                    vs.inner_prod(x, bv) / u == vs.inner_prod(unit(x), bv) for bv in basis))
+                dist("longdouble-extreme e=%d" % e)
+                out["cases"].append({"x": enc(unit(x)), "y": enc(unit(y)), "a": a, "add": enc(unit(add)), "smul": enc(unit(smul)),
+                                     "cov": enc(unit(cov)), "inner": int(ip / u / u), "zeros": enc(zeros), "ones": enc(ones),
+                                     "size": size, "basis": [enc(bv) for bv in basis], "flat": None, "problems": probs})
+            except Exception as ex:
+                probs.append("raised: %r" % (ex,))
+                out["cases"].append({"x": enc(unit(x)), "y": enc(unit(y)), "a": a, "problems": probs, "error": True})
     print(json.dumps(out))
 
 
